@@ -230,8 +230,8 @@ def main():
             o.write(f"    {m}::entries(&mut v);\n")
         o.write("    v\n}\n")
         for m in wmods:
-            o.write(f"mod {m};\n")
-        o.write("\npub fn prebuilt_writers<T: crate::common::Flt>() -> Vec<crate::fmtcat::FloatFmt<T>> {\n    let mut v = Vec::new();\n")
+            o.write(f"#[cfg(feature = \"prebuiltw\")]\nmod {m};\n")
+        o.write("\n#[cfg(feature = \"prebuiltw\")]\npub fn prebuilt_writers<T: crate::common::Flt>() -> Vec<crate::fmtcat::FloatFmt<T>> {\n    let mut v = Vec::new();\n")
         for m in wmods:
             o.write(f"    {m}::entries::<T>(&mut v);\n")
         o.write("    v\n}\n")
